@@ -1,0 +1,48 @@
+//go:build verif
+
+// Contracts for gocv (see /verif/DESIGN.md). Comment-only file: takes no part in any build.
+
+package executor
+
+// ---- assumed contracts on collaborators (trusted, reported in evidence) --------------------------
+//@ pure func (github.com/33cn/chain33/client.QueueProtocolAPI).GetConfig
+//@ pure func (*github.com/33cn/chain33/types.Chain33Config).GetParaExec
+//@ pure func (*github.com/33cn/chain33/types.Chain33Config).IsFork
+//@ pure func (*github.com/33cn/chain33/types.Chain33Config).GetTitle
+//@ pure func github.com/33cn/chain33/system/dapp.ExecAddress
+//@ pure func github.com/33cn/chain33/types.GetExecKey
+//@ pure func github.com/33cn/chain33/types.GetRealExecName
+
+// ---- C12: where a transaction may write ----------------------------------------------------------
+
+// Local keys: "LODB" - execer - nonempty
+//@ func isAllowLocalKey2 [C12]
+//@   ensures result == nil ==> len(execer) >= 1 && len(key) > 6 + len(execer)
+//@   ensures result == nil ==> bhasprefix(bytes(key), "LODB") && key[4] == 45 && key[5+len(execer)] == 45
+//@   ensures result == nil ==> bhasprefix(bsub(bytes(key), 5, len(key)), bytes(execer))
+//@   ensures len(execer) < 1 || len(key) <= 6 + len(execer) ==> result != nil
+//@   ensures len(execer) >= 1 && len(key) > 6 + len(execer) && !(bhasprefix(bytes(key), "LODB") && key[4] == 45 && key[5+len(execer)] == 45) ==> result != nil
+
+// State keys: the path-complete list of reasons for which a write is allowed.
+//@ func isAllowKeyWrite [C12]
+//@   requires tx != nil && e != nil
+//@   ensures result ==> ret1(FindExecer) == nil
+//@   ensures result ==> bytes(ret0(FindExecer)) == bytes(ret(GetParaExec)) || (!ret(IsFork) && bytes(ret(GetParaExec)) == "manage" && bytes(ret0(FindExecer)) == "config") || (!ret(IsFork) && bytes(ret(GetParaExec)) == "token" && bhasprefix(bytes(key), "mavl-create-token-")) || (ret1(GetExecKey) && ret0(GetExecKey) == ret(ExecAddress)) || (called(IsFriend) && ret(IsFriend))
+
+// Every key the transaction wrote to the state DB must be in the key set built from its receipt.
+// (That the set holds only receipt keys - a forall/exists fact over byte strings - is not proved:
+// the solvers do not get through the quantifier alternation; reported as unverified.)
+//@ func (*executor).checkKV [C12]
+//@   ensures result == nil ==> forall j :: 0 <= j && j < len(memset) ==> has(keys, memset[j])
+//@   ensures result != nil ==> result == types.ErrNotAllowMemSetKey
+//@   loop 0 invariant !isnil(keys)
+//@   loop 1 invariant forall j :: 0 <= j && j <= rangeindex ==> has(keys, memset[j])
+
+// Receipt merging happens only after both checks passed.
+//@ func (*executor).execTxOne [C12]
+//@   opt safety=assumed overflow=assumed
+//@   requires feelog != nil && tx != nil
+//@   ensures result1 == nil ==> ret1(Exec) == nil
+//@   ensures result1 == nil ==> called(checkKV) && ret(checkKV) == nil
+//@   ensures result1 == nil ==> called(checkKeyAllow) && ret1(checkKeyAllow) == nil
+//@   assert@call execLocalSameTime: ret(checkKV) == nil && ret1(checkKeyAllow) == nil
